@@ -17,6 +17,7 @@ import PercevalModel.Lemmas.C11Regroup
 import PercevalModel.Lemmas.C11Deep
 import PercevalModel.Lemmas.C11Chain
 import PercevalModel.Lemmas.C11Mixed
+import PercevalModel.Lemmas.C11Nest
 import PercevalModel.Props.C01
 import PercevalModel.Num.GQ
 
@@ -1019,6 +1020,98 @@ example : (∀ a b : GQ, id (PhaseAlg.add a b) = id a * id b) ∧
     · exact ⟨by decide, by decide, trivial⟩
     · exact ⟨by decide, by decide, (by decide : IsPermList 3 [2, 0, 1])⟩
 
+/-! ## M. `decompose_perms(circuit, merge)` as the OBJECT it returns — nesting included
+
+`MS.decomp` (part L) is the flattened view, in which `merge` cannot be seen.  `MS.decompTree merge` is the component
+list `decompose_perms` builds through `Circuit.add(r, new_c, merge=merge)`: with `merge=False` one nested
+`Circuit(n)` of swaps per `PERM` that is not a two-mode one; with `merge=True` the swaps themselves — except that
+`Circuit.add` tests the TRUTHINESS of the sub-circuit's component list, so the empty sub-circuit of an identity
+permutation (or of a one-mode `PERM`) stays a nested empty circuit. -/
+
+/-- `for r, c in decompose_perms(circuit, merge)` iterates over exactly the list `MS.decomp` describes, for both
+values of `merge` (the nested sub-circuits sit at the place of their `PERM`, their swaps at `r + k`; an empty nested
+circuit contributes nothing) — the hypothesis-free link between the object and the flattened view part L works on -/
+theorem decompose_nested_view [Zero R] [One R] {P : Type} (merge : Bool) (e : P → R) (st : MS P R) :
+    flattenExp true none (Its.ofList (MS.decompTree merge e st)) = (MS.decomp st).cmps e :=
+  decompTree_flatten' merge e st
+
+/-- BREAKING PERMUTATIONS INTO TWO-MODE SWAPS LEAVES THE MATRIX UNCHANGED — for the object `decompose_perms` returns,
+with either value of `merge`, empty nested circuits included: every `Circuit.add` it makes passes the range
+assertions (on the circuit and inside each nested sub-circuit), and `compute_unitary()` of the returned circuit is the
+matrix of the input -/
+theorem decompose_nested_matrix [CommRing R] [StarRing R] {P : Type} (I : R) (e : P → R) (m : ℕ) (merge : Bool)
+    (st : MS P R) (hok : st.OK m) :
+    (Its.ofList (MS.decompTree merge e st)).WF m ∧
+      (Its.ofList (MS.decompTree merge e st)).U I m = MS.U I e m st := by
+  have hw := (Its.ofList_WF _ (decompTree_ok merge e m st hok)).1
+  refine ⟨hw, ?_⟩
+  rw [← flatten_matrix I m _ hw none, decompTree_flatten', ← (MS.decomp_spec I e m st hok).2]
+  rfl
+
+/-- `merge=False`: nothing is merged — the returned circuit has ONE component per input component, on the same
+modes (a `PERM` that is not a two-mode one became a nested circuit of its own width) -/
+theorem decompose_unmerged_shape [Zero R] [One R] {P : Type} (e : P → R) (st : MS P R) :
+    (MS.decompTree false e st).map (fun q => (q.1, q.2.size)) = st.map fun p => (p.1, p.2.size) := by
+  induction st with
+  | nil => rfl
+  | cons p rest ih =>
+    have hsplit : MS.decompTree false e (p :: rest) = decompItem false e p ++ MS.decompTree false e rest := by
+      simp [MS.decompTree]
+    rw [hsplit, List.map_append, ih]
+    obtain ⟨o, k⟩ := p
+    cases k with
+    | perm n σ =>
+      by_cases h2 : n = 2
+      · subst h2; simp [decompItem, FK.toCmp, Cmp.size, Leaf.size, FK.size]
+      · simp [decompItem, h2, Cmp.size, FK.size]
+    | ps φ => simp [decompItem, FK.toCmp, Cmp.size, Leaf.size, FK.size]
+    | leaf l => simp [decompItem, FK.toCmp, Cmp.size, FK.size]
+
+/-- `merge=True`: the only nesting left is EMPTY sub-circuits (`Circuit.add` merges only a sub-circuit whose
+component list is truthy) — every component of the returned circuit is a leaf or an empty `Circuit(n)` -/
+theorem decompose_merged_shape [Zero R] [One R] {P : Type} (e : P → R) (st : MS P R) :
+    ∀ q ∈ MS.decompTree true e st, (∃ l, q.2 = .leaf l) ∨ (∃ n, q.2 = .circ n .nil) := by
+  intro q hq
+  simp only [MS.decompTree, List.mem_flatMap] at hq
+  obtain ⟨⟨o, k⟩, -, hq⟩ := hq
+  cases k with
+  | perm n σ =>
+    by_cases h2 : n = 2
+    · simp only [decompItem, h2, if_true, List.mem_singleton] at hq
+      subst hq; exact .inl ⟨_, rfl⟩
+    · cases hb : bubble σ with
+      | nil =>
+        simp only [decompItem, h2, hb, if_false, List.isEmpty_nil, Bool.not_true, Bool.and_false,
+          Bool.false_eq_true, List.map_nil, Its.ofList, List.mem_singleton] at hq
+        subst hq; exact .inr ⟨n, rfl⟩
+      | cons a t =>
+        simp only [decompItem, h2, hb, if_false, List.isEmpty_cons, Bool.not_false, Bool.and_true,
+          if_true, List.mem_map] at hq
+        obtain ⟨k, -, rfl⟩ := hq
+        exact .inl ⟨_, rfl⟩
+  | ps φ =>
+    simp only [decompItem, List.mem_singleton] at hq
+    subst hq; exact .inl ⟨_, rfl⟩
+  | leaf l =>
+    simp only [decompItem, List.mem_singleton] at hq
+    subst hq; exact .inl ⟨_, rfl⟩
+
+/-- a 3-cycle, an identity permutation on 3 modes, a two-mode identity `PERM` and a phase shifter on 4 modes -/
+def exNest : MS GQ GQ :=
+  [(0, .perm 3 [1, 2, 0]), (1, .perm 3 [0, 1, 2]), (2, .perm 2 [0, 1]), (0, .ps GQ.I)]
+
+example : exNest.OK 4 ∧
+    (MS.decompTree true id exNest).map (fun q => (q.1, q.2.size)) = [(1, 2), (0, 2), (1, 3), (2, 2), (0, 1)] ∧
+    (MS.decompTree false id exNest).map (fun q => (q.1, q.2.size)) = [(0, 3), (1, 3), (2, 2), (0, 1)] := by
+  refine ⟨?_, by decide +kernel, by decide +kernel⟩
+  intro p hp
+  simp only [exNest, List.mem_cons, List.not_mem_nil, or_false] at hp
+  rcases hp with rfl | rfl | rfl | rfl
+  · exact ⟨by decide, by decide, (by decide : IsPermList 3 [1, 2, 0])⟩
+  · exact ⟨by decide, by decide, (by decide : IsPermList 3 [0, 1, 2])⟩
+  · exact ⟨by decide, by decide, (by decide : IsPermList 2 [0, 1])⟩
+  · exact ⟨by decide, by decide, trivial⟩
+
 /-! ## Still NOT proved (validated by the correspondence only)
 
 * the fields `Experiment.copy()` / `Processor.copy()` share with the original (shallow `copy.copy`: ports,
@@ -1033,8 +1126,9 @@ example : (∀ a b : GQ, id (PhaseAlg.add a b) = id a * id b) ∧
   when the exact phase sum is a multiple of `2π`);
 * mixed histories (part L) speak of the FLATTENED view: that `inverse` / `copy` of a nested circuit followed by the
   iteration `for r, c in circuit` gives the inverse / the copy of the flattened list is `flatten_matrix` + `circuit_inv`
-  on the matrix level only (the lists themselves are compared by the correspondence); `decompose_perms(merge=False)`
-  nests the swaps in a sub-circuit — invisible in the flattened view, not modelled; the regrouping step is the
+  on the matrix level only (the lists themselves are compared by the correspondence); the nesting
+  `decompose_perms(merge)` leaves is modelled and proved in part M, but the history machine of part L still works on
+  the flattened view (`decompose_nested_view` is the link); the regrouping step is the
   all-unitary case (one block) — lists with loss channels / time delays have `regroup_denotation` but are not steps
   of the history machine;
 * model = code (differential testing on every run). -/
